@@ -180,8 +180,8 @@ Inductive slot :=
 | SFlagNames
 | SMessage.
 
-Definition traverse (fs : list flag) (il : bool) (ws : list str) (cur : str) : slot :=
-  let st := t_loop fs il ws t0 in
+(* the choice of the action once the typed words are classified *)
+Definition finish (fs : list flag) (il : bool) (st : tstate) (cur : str) : slot :=
   let to_parse := match t_inflag st with Some _ => removelast (t_inargs st) | None => t_inargs st end in
   match parse fs il to_parse with
   | PErr => SMessage
@@ -201,3 +201,5 @@ Definition traverse (fs : list flag) (il : bool) (ws : list str) (cur : str) : s
       end
     end
   end.
+Definition traverse (fs : list flag) (il : bool) (ws : list str) (cur : str) : slot :=
+  finish fs il (t_loop fs il ws t0) cur.
